@@ -198,6 +198,9 @@ class C05(Prop):
             w["retry_kwargs"] = {"attempts": rng.choice([1, 2, 3])}
         keys = gen.pick_keys(rng, rng.randint(2, 4))
         pfx = codec.dec(ck.get("key_prefix", E(b"")))
+        if pfx and rng.random() < 0.5:
+            k0 = keys[0]
+            keys.append(pfx + (k0.encode() if isinstance(k0, str) else k0))   # a key that starts with the prefix bytes
         steps = []
         gets_steps = []   # (step index, key, kind)
         n = rng.randint(5, 40)
